@@ -17,7 +17,7 @@ ASSUMPTIONS = ["scheme candidates whose first character is a digit, '+', '-' or 
 
 DELIMS = ":/?#@[]\\"
 TOKENS = [":", "/", "//", "?", "#", "@", "[", "]", "\\", "[::1]", "[a:b]@", "[v1.x]@", "foo:////x", "mailto://///a", "data:////", "u@\uff45x.com", "\ufb01le.example:8080", "u:pw@cafe\u0301.example:99", "[::1]@", "u[:]p@", "//[a:b]@h:80", "[v1.x]", "[1.2.3.4]", "[fe80::1%25eth0]", "http", "HTTP", "hTTps", "ws", "file", "mailto", "a", "b1", "1", "+", "-", ".",
-          "80", ":80", ":0", ":", ":080", ":0080", ":00443", ":0443", ":021", ":000", "http://h:080", "https://u:p@[::1]:00443", " ", "\t", "\n", "\r", "\x00", "\x1f", "\x0b", "\xa0", "\u2003", "\u3000", "\x85", "\u2028", "\xe9:x", "\u0444ile:", "[v1.x]", "//[v1.x]/p", "[vF.a]:80", "//[vAF.x:y]", "//[1.2.3.4%a:b1]", "[127.0.0.1%x:1]:2", "x://u:p@[vC0.a:b]:81/", "//[V1.x]", "//[::FFFF:1.2.3.4]", "//a%41:1", "//!$&'()*+,;=@!$&'()*+,;=", "%41", "%2f", "\xe9", "x-y.z", "://", "h.example", "H.Example", "u:p@", "u@", ":p@", "@@", "::", "?#", "#?", "..", "."]
+          "80", ":80", ":0", ":", ":080", ":0080", ":00443", ":0443", ":021", ":000", "http://h:080", "https://u:p@[::1]:00443", " ", "\t", "\n", "\r", "\x00", "\x1f", "\x0b", "\xa0", "\u2003", "\u3000", "\x85", "\u2028", "\xe9:x", "\u0444ile:", "[v1.x]", "//[v1.x]/p", "[vF.a]:80", "//[vAF.x:y]", "[[", "]]", "h:80[[", "[a:b]@h:80[[", "x[::1]", "[::1]x", "[a:b]@[1.2.3.4]", "//[1.2.3.4%a:b1]", "[127.0.0.1%x:1]:2", "x://u:p@[vC0.a:b]:81/", "//[V1.x]", "//[::FFFF:1.2.3.4]", "//a%41:1", "//!$&'()*+,;=@!$&'()*+,;=", "%41", "%2f", "\xe9", "x-y.z", "://", "h.example", "H.Example", "u:p@", "u@", ":p@", "@@", "::", "?#", "#?", "..", "."]
 
 
 def dense():
